@@ -1625,4 +1625,107 @@ def cycleRotatesAt (after t : Nat) : Bool := !(decide (t < after))
 /-- the witnesses of the Phase-4 `_counterexample`s -/
 def wCycle : List Inter := [{ actions := some [.str "a", .str "b", .str "c"], rewards := some (.seq true [1, 2, 3]) }]
 
+
+/-! ## Phase 5: well-formed SparseDense rows (what `Densify` builds: one entry per slot, slots below the length, lazy-free values) -/
+
+def natKeysUniq : List Nat → Bool
+  | [] => true
+  | k :: ks => !ks.contains k && natKeysUniq ks
+
+def lazyWf (kvs : List (Nat × Val)) (n : Nat) : Bool :=
+  natKeysUniq (kvs.map (·.1)) && kvs.all (fun p => decide (p.1 < n) && wfNoLazy p.2)
+
+def wfRow : Val → Bool
+  | .lazy kvs n => lazyWf kvs n
+  | v => wfNoLazy v
+
+
+
+/-! ### Densify: slot functions, sparse rows, injective slots (goal 1) -/
+
+/-- the table a Densify method reads its slots from -/
+def tableOf (m : DMethod) (st : DState) : List (String × Nat) :=
+  match m with
+  | .hashing t => t
+  | .lookup _ => st.table
+
+/-- `_make_dense`'s entries for a slot function -/
+def entsAcc (slot : String → Nat) : List (String × Val) → List (Nat × Val) → List (Nat × Val)
+  | [], acc => acc
+  | (k, v) :: r, acc => entsAcc slot r (natSet (slot k) v acc)
+
+def slotFn (T : List (String × Nat)) (k : String) : Nat := (assocGet k T).getD 0
+
+def noZeroD (d : List (String × Val)) : Bool := d.all (fun p => !isZero p.2)
+
+/-- a sparse row as coba's readers produce it: unique keys, lazy-free values, no stored zero -/
+def sparseRowWf (d : List (String × Val)) : Bool := uniqKeys (d.map (·.1)) && wfNoLazyD d && noZeroD d
+
+/-- every key has a slot below `n` and different keys have different slots -/
+def slotsInjB (T : List (String × Nat)) (keys : List String) (n : Nat) : Bool :=
+  keys.all (fun k => match assocGet k T with | some i => decide (i < n) | none => false) &&
+  keys.all (fun k => keys.all (fun k' => k == k' || slotFn T k != slotFn T k'))
+
+/-- `_make_dense(value)` for a slot function given as a table -/
+def denseOf (T : List (String × Nat)) (n : Nat) : Val → Val
+  | .dict d => .lazy (entsAcc (slotFn T) d []) n
+  | v => v
+
+/-- every action is a sparse row (unique keys, lazy-free values, no stored zero) -/
+def sparseRowsB (as : List Val) : Bool := as.all fun a => match a with | .dict d => sparseRowWf d | _ => false
+
+
+
+/-- the table a `Densify` object holds after it has filtered `s` (hashing: the crc32 table, given) -/
+def densifyTable (m : DMethod) (n : Nat) (c a : Bool) (s : List Inter) : List (String × Nat) :=
+  match m with
+  | .hashing t => t
+  | .lookup prior =>
+    match primeKeys (.lookup []) (initDState n) (prior ++ keysAsked c a s) with
+    | .ok st => st.table
+    | .error _ => []
+
+/-- the per-interaction part of the preconditions of `densify_sparse_aligned` -/
+def densifyInterHypB (T : List (String × Nat)) (n : Nat) (rC fC : Bool) (I : Inter) : Bool :=
+  (match I.rewards with | some r => !r.isCallable || rC | none => true)
+  && (match I.feedbacks with | some r => !r.isCallable || fC | none => true)
+  && (match I.actions with
+      | some as => sparseRowsB as && distinctB as && slotsInjB T (keysOfVals as) n
+          && (match I.action with
+              | some x => (match indexOf as x with
+                           | some k => (match as[k]? with | some b => Val.same b x | none => false)
+                           | none => true)
+              | none => true)
+      | none => true)
+
+/-- explicit, decidable preconditions of Densify(action=True) on sparse actions — all about the *input* stream and the slot table -/
+def densifySparseHypB (T : List (String × Nat)) (n : Nat) (s : List Inter) : Bool :=
+  alignedStreamB s s && s.all (densifyInterHypB T n (firstCallable (·.rewards) s) (firstCallable (·.feedbacks) s))
+
+
+/-- witness: a stored zero is the same dense row as an absent key (`{'a':0}` and `{}`), so two different sparse actions merge -/
+def wStoredZero : List Inter :=
+  [{ actions := some [.dict [("a", .num 0)], .dict []], rewards := some (.binary (.dict []) 1) }]
+
+
+/-! ### Repr / EncodeCatRows: the mode names and the dispatch on them, as named definitions (compared with `Generated/C10ReprModes.lean`) -/
+
+/-- every mode `Repr(cat_context, cat_actions)` / `EncodeCatRows(tipe)` accepts besides `None` -/
+def allModes : List Mode := [.onehot, .onehotTuple, .string]
+
+/-- the parser of mode names (used by the driver; inverse of `modeName`) -/
+def modeOfName (s : String) : Option Mode :=
+  if s == "onehot" then some .onehot else if s == "onehot_tuple" then some .onehotTuple else if s == "string" then some .string else none
+
+/-- `EncodeCatRows._encode_values`: which conversion a scalar categorical gets under each mode -/
+def valuesBranch : Mode → String
+  | .string => "str"
+  | _ => "as_onehot"
+
+/-- `EncodeCatRows._encode_collection.catset`: `str(...)`, the flat one-hot, or the one-hot tuple in place -/
+def collBranch : Mode → String
+  | .string => "str"
+  | .onehot => "flat"
+  | .onehotTuple => "as_onehot"
+
 end Coba.C10
